@@ -4,6 +4,7 @@ One `Explorer.run(entry)` enumerates every feasible path of `entry(ex)`; `entry`
 builds its symbolic inputs, calls `ex.call(...)` on MIR functions and records what
 it wants in `ex.out`. Branch feasibility and all property queries go to z3.
 """
+import functools
 import os
 import re
 import time
@@ -107,6 +108,7 @@ class Explorer:
         self.sym_counter = 0
         self.visit_count: Dict[Tuple[int, str, str], int] = {}
         self.split_depth: Optional[int] = None
+        self.var_bounds: Dict[str, int] = {}
 
     # ------------------------------------------------------------------ solver
     def check(self, *extra, important=False) -> str:
@@ -270,6 +272,9 @@ class Explorer:
         if isinstance(v, Vec):
             return v.elems[p]
         if isinstance(v, (BoxV,)):
+            # Box<T>.0 is Unique<T>, .0 of that is NonNull<T>: both are "the pointer"
+            if p == 0:
+                return v
             raise Unsupported('projection through Box without deref')
         raise Unsupported('projection %r of %r' % (p, v))
 
@@ -622,6 +627,8 @@ class Frame:
         if kind.startswith('PointerCoercion') or kind in ('Transmute', 'PtrToPtr', 'Subtype'):
             if kind == 'Transmute' and not isinstance(v, (Ref, BoxV, ArcV, Native)):
                 raise Unsupported('transmute of %r' % (v,))
+            if kind == 'Transmute' and isinstance(v, BoxV) and ty.strip().startswith('*'):
+                return Native('rawptr', Ref(v.cell, (), True))
             return v
         raise Unsupported('cast kind %s' % kind)
 
@@ -693,6 +700,10 @@ class Frame:
             return Bool((x > y) if s else z3.UGT(x, y))
         if op == 'Ge':
             return Bool((x >= y) if s else z3.UGE(x, y))
+        if op == 'AddWithOverflow' and not s and self.ex.var_bounds and ubound(self.ex, x) + ubound(self.ex, y) < (1 << bits):
+            return Agg('tuple', '', None, (Int(x + y, a.ty), FALSE))
+        if op == 'MulWithOverflow' and not s and self.ex.var_bounds and ubound(self.ex, x) * ubound(self.ex, y) < (1 << bits):
+            return Agg('tuple', '', None, (Int(x * y, a.ty), FALSE))
         if op == 'AddWithOverflow':
             if s:
                 ovf = z3.Not(z3.And(z3.BVAddNoOverflow(x, y, True), z3.BVAddNoUnderflow(x, y)))
@@ -858,6 +869,46 @@ class Frame:
         return d['ret']
 
 
+_ub_cache = {}
+
+
+def ubound(ex, t):
+    """A cheap syntactic upper bound (as unsigned) of a bit-vector term, using the declared bounds of
+    input variables (`ex.var_bounds`). Only used to skip solver queries whose answer is obvious."""
+    key = t.get_id()
+    r = _ub_cache.get(key)
+    if r is not None and r[0] is ex.var_bounds and r[2].eq(t):
+        return r[1]
+    bits = t.size()
+    full = (1 << bits) - 1
+    k = t.decl().kind()
+    if z3.is_bv_value(t):
+        v = t.as_long()
+    elif k == z3.Z3_OP_UNINTERPRETED and t.num_args() == 0:
+        v = min(full, ex.var_bounds.get(t.decl().name(), full))
+    elif k == z3.Z3_OP_BADD:
+        v = min(full, sum(ubound(ex, c) for c in t.children()))
+        if sum(ubound(ex, c) for c in t.children()) > full:
+            v = full
+    elif k == z3.Z3_OP_BMUL:
+        prod = 1
+        for c in t.children():
+            prod *= ubound(ex, c)
+        v = prod if prod <= full else full
+    elif k == z3.Z3_OP_ZERO_EXT:
+        v = ubound(ex, t.arg(0))
+    elif k == z3.Z3_OP_ITE:
+        v = max(ubound(ex, t.arg(1)), ubound(ex, t.arg(2)))
+    elif k == z3.Z3_OP_CONCAT and z3.is_bv_value(t.arg(0)) and t.arg(0).as_long() == 0 and t.num_args() == 2:
+        v = ubound(ex, t.arg(1))
+    else:
+        v = full
+    _ub_cache[key] = (ex.var_bounds, v, t)      # keeping `t` alive keeps its AST id from being reused
+    if len(_ub_cache) > 200000:
+        _ub_cache.clear()
+    return v
+
+
 def _wrap(val, bits, signed):
     val &= (1 << bits) - 1
     if signed and val >= (1 << (bits - 1)):
@@ -998,6 +1049,7 @@ def enum_variants(prog: Program, ename: str) -> Optional[List[str]]:
 QUAL = re.compile(r'^<(.*)>::([A-Za-z_0-9]+)(::<.*>)?$')
 
 
+@functools.lru_cache(maxsize=None)
 def split_qualified(callee: str):
     """'<X as Tr<A>>::m::<G>' -> (X, Tr, A, m) ; 'Type::<G>::m' -> (Type, None, None, m) ; 'free' -> (None,None,None,free)"""
     c = callee.strip()
@@ -1042,6 +1094,7 @@ def split_qualified(callee: str):
     return '::'.join(segs[:-1]), None, None, segs[-1]
 
 
+@functools.lru_cache(maxsize=None)
 def norm_callee(callee: str) -> str:
     ty, tr, targs, method = split_qualified(callee)
     if ty is None:
